@@ -130,13 +130,13 @@ def source_audit(modules=None):
 
 def axiom_audit(module, theorems):
     """#print axioms for each theorem; returns dict name -> (ok, axioms or error text)"""
-    code = "import %s\nopen TB\n" % module + "".join("#print axioms %s\n" % t for t in theorems)
+    code = "import %s\nopen TB TB.Exec\n" % module + "".join("#print axioms %s\n" % t for t in theorems)
     rc, out = lean_run(code, is_code=True)
     res = {}
     # output blocks: "'TB.name' depends on axioms: [a, b]" or "'TB.name' does not depend on any axioms"
     flat = re.sub(r"\s+", " ", out)
     for t in theorems:
-        m = re.search(r"'(?:TB\.)?%s' (does not depend on any axioms|depends on axioms: \[([^\]]*)\])" % re.escape(t), flat)
+        m = re.search(r"'(?:TB\.(?:Exec\.)?)?%s' (does not depend on any axioms|depends on axioms: \[([^\]]*)\])" % re.escape(t), flat)
         if not m:
             res[t] = (False, "no #print axioms output (rc=%d): %s" % (rc, out.strip()[:400]))
             continue
